@@ -31,4 +31,12 @@ GROUPS = [
           bound="constructed bound-value texts: optional leading blank, optional sign, INF or INFINITY in any letter case, followed by NUL / newline / blank / another character; loops completely unwound; reader buffer capacity 512",
           functions=["ILLmps_next_bound", "mps_skip_comment"], props=["C10", "C11", "C17"],
           assumed=["rdr/mps_next_bound: strncasecmp is modelled by a plain loop; the numeric path (get_double -> ILLget_value) is stubbed here and decided in lpnum/*"]),
+] + [
+    Group("rdr/lp_scan_" + nm, "lp_scan.c", tus=["read_lp_mpq.c", "lp_mpq.c"], model=MODEL, defines=["WHICH=%d" % k], dfcc=False, unwind=(90 if k in (2, 3) else 26), kind="bounded", namebuf=16, timeout=1200,
+          bound="every line content of at most 4 arbitrary bytes with or without trailing newline, cursor anywhere, stale bytes after the terminator; line source at end of file; loops completely unwound; reader buffer capacity reduced to 16 (so that a scan that runs past the line terminator reaches the end of the buffer inside the bound)",
+          functions=fns, props=["C11", "C17"], ignore=[(r"strcpy src/dst overlap", "CBMC's strcpy model demands different objects")],
+          assumed=["rdr/lp_scan: sscanf(\"%s\"), strncasecmp are modelled by plain loops; the line source returns end of file"])
+    for k, nm, fns in [(0, "skip_blanks", ["ILLread_lp_state_skip_blanks"]), (1, "next_field", ["ILLread_lp_state_next_field_on_line", "next_field"]), (2, "next_var", ["ILLread_lp_state_next_var", "ILLis_lp_name_char"]),
+                       (3, "has_colon", ["ILLread_lp_state_has_colon"]), (4, "colon", ["ILLread_lp_state_colon"]), (5, "sign", ["ILLread_lp_state_sign"]), (6, "sense", ["ILLtest_lp_state_sense"]),
+                       (7, "prev_field", ["ILLread_lp_state_prev_field"]), (8, "next_is", ["ILLtest_lp_state_next_is"])]
 ]
